@@ -156,7 +156,9 @@ def opHist (args : List String) (impl : String) : Verdict :=
             | none => (sink, outs ++ ["bad-stream"], delivered, some "bad-op")
             | some stream =>
               let fw := if fault.startsWith "t" then (fault.drop 1).toString.toNat? else none
-              let fs := if fault.startsWith "s" then (fault.drop 1).toString.toNat? else none
+              -- `b<k>`: the k-th write to the backing of an io outboard fails: one 64-byte write per save, so it is
+              -- the k-th save that fails (and has no effect, A3)
+              let fs := if fault.startsWith "s" || fault.startsWith "b" then (fault.drop 1).toString.toNat? else none
               let (sink', term) := decodeRangesF hf fl stream ranges sink fw fs
               -- the validator on the model's state
               let vst : Store HB := { sink'.ob with kind := (match kind with | .preIo => .preMem | .postIo => .postMem | k => k) }
